@@ -19,6 +19,9 @@ ORACLE_ONLY = ["bloc sizes equal the Huntington-Hill apportionment: compared wit
 
 
 def model_post(exp, mo):
+    ex0 = exp.get("expect")
+    if isinstance(ex0, list) and ex0 and isinstance(ex0[0], str) and ex0[0] == "aggregate-only" and isinstance(mo, list) and len(mo) == 3:
+        mo = ["aggregate-only"] + list(mo[1:])          # generate_profile(by_bloc=False): only the aggregate is observable
     if exp.get("round") and isinstance(mo, list) and mo and isinstance(mo[-1], list):
         calls = genlib.round_calls(mo[-1])
         ex = exp.get("expect")
@@ -42,6 +45,8 @@ def known_finding(case, kind, detail):
             return "bt-mcmc-single-candidate"
     if g == "slate_BT_MCMC" and "Err(EZeroDiv)" in d and any(case["cohesion"][b][b] == 0 for b in case["blocs"]):
         return "slate-bt-mcmc-zero-cohesion"
+    if g == "from_point" and "Err(EZeroDiv)" in d and any(v == 0 for v in case["point"].values()):
+        return "from-point-zero-entry"
     return None
 
 
